@@ -39,12 +39,18 @@ type messageTransformSubscriberDecorator struct {
 
 	transform   func(*Message)
 	subscribeWg sync.WaitGroup
+	// subscribeLock makes Close wait for Subscribe calls that are in flight:
+	// otherwise their subscribeWg.Add(1) could come after Close's subscribeWg.Wait()
+	subscribeLock sync.Mutex
 
 	closing     chan struct{}
 	closingOnce sync.Once
 }
 
 func (t *messageTransformSubscriberDecorator) Subscribe(ctx context.Context, topic string) (<-chan *Message, error) {
+	t.subscribeLock.Lock()
+	defer t.subscribeLock.Unlock()
+
 	in, err := t.sub.Subscribe(ctx, topic)
 	if err != nil {
 		return nil, err
@@ -79,6 +85,10 @@ func (t *messageTransformSubscriberDecorator) Close() error {
 	})
 
 	err := t.sub.Close()
+
+	// a Subscribe call that raced with the Close above registers its pump before we wait
+	t.subscribeLock.Lock()
+	t.subscribeLock.Unlock()
 
 	t.subscribeWg.Wait()
 	return err
